@@ -185,7 +185,9 @@ class Module:
                     ops = [Expr("id", name=x) for x in rng.sample(nets, k)]
                 if t not in ("buf", "not") and rng.random() < 0.12:
                     # an operand given twice (cancels in xor/xnor, harmless elsewhere); fan-in sets would collapse it
-                    ops.insert(rng.randrange(len(ops) + 1), rng.choice(ops))
+                    dup = rng.choice(ops)
+                    for _ in range(rng.randint(1, 3)):       # given 2, 3 or 4 times
+                        ops.insert(rng.randrange(len(ops) + 1), dup)
                 self.stmts.append(("gate", t, f"g_{i}" if rng.random() < 0.8 else f"U{i}", net, ops))
                 self.defs[net] = ("gate", t, ops)
             nets.append(net)
@@ -236,7 +238,8 @@ class Module:
 
         def cm():
             if comments and rnd and rng.random() < 0.15:
-                return rng.choice([" // note\n", " /* x */ ", "// input a;\n"])
+                return rng.choice([" // note\n", " /* x */ ", "// input a;\n", " // see /* below\n", " /* a // b */ ",
+                                   " // */ x\n"])
             return ""
         ports = [self.ident(p) for p in self.inputs + [o for o in self.outputs if o not in self.inputs]]
         head = f"module{rng.choice([' ', '  ', chr(10)]) if rnd else ' '}{self.name}{sp()}({sp()}{(',' + sp()).join(ports)}{sp()});"
